@@ -5,6 +5,14 @@ HERE = os.path.dirname(os.path.abspath(__file__))
 BASELINE = "cd /repo && /venv/bin/python -m pytest -ra -q -p no:cacheprovider --timeout=900 --continue-on-collection-errors"
 
 CLAIMED = {
+    'C12': dict(
+        design='4.12',
+        text='Deductive proof of util.merge_index_map (the union-find behind multipatch/merged bases): for every nin, every number and length of merge sets, with four loop '
+             'invariants and a ghost representative array: members of a merge set get equal indices (documented condition), two indices are equal only if related by EVERY '
+             'equivalence containing the merge pairs (no over-merging), labels lie in [0,count) when condensing, the parent chase terminates (decreases clause). No bound.',
+        note='Only this function: concrete basis classes, partition of unity and continuity are numeric and outside; Basis._computed_support is not built. Trusted: pyvc loop rule, '
+             'numpy integer-array store axiom, min() axiom, ghost update text. Failing obligations are replayed by an exhaustive native search over small inputs.',
+        technique='contract-based deductive verification: loop invariants + ghost state, ast->z3 VC generation on the real function body'),
     'C09': dict(
         design='4.9',
         text='Proof by exact computation of the kernel: every branch of the real points.gauss2 / points.gauss3 table code (degrees 0..8 / 0..9, i.e. all branches incl. the '
@@ -56,7 +64,7 @@ NOT_APPLICABLE = {
     'C02': 'whole-DAG faithful translation into generated numpy programs: no function-level postcondition carries it; would need a denotational semantics of ~150 node classes and of the generated code (DESIGN 4.2)',
     'C03': 'history/non-interference property of a program that exists only as a generated string; no per-function contract expresses it (DESIGN 4.3)',
 }
-PENDING = ['C04', 'C05', 'C07', 'C08', 'C10', 'C11', 'C12', 'C13', 'C16', 'C17', 'C18', 'C19', 'C20']
+PENDING = ['C04', 'C05', 'C07', 'C08', 'C10', 'C11', 'C13', 'C16', 'C17', 'C18', 'C19', 'C20']
 
 
 def main():
